@@ -282,7 +282,7 @@ func c01Controller(rep *explore.Report, w *world.World, in c01Input, policy stri
 // c01Journey: the set runs with slots s1 to quiescence, then the annotation is
 // edited to s2 (nil = removed) and the set runs to quiescence again: the pods
 // must be exactly desired(r, s2).
-func c01Journey(rep *explore.Report, w *world.World, r int32, s1, s2 []int32, policy string, editTemplate bool) {
+func c01Journey(rep *explore.Report, w *world.World, r int32, s1, s2 []int32, policy string, editTemplate bool, r2 int32) {
 	sp := gen.Spec{Name: "web", Replicas: r, Slots: s1, Policy: policy, Strategy: gen.RU(0), Limit: 10, Template: 1}
 	set := sp.Build()
 	st := world.NewState()
@@ -290,7 +290,7 @@ func c01Journey(rep *explore.Report, w *world.World, r int32, s1, s2 []int32, po
 	st.SyncCaches()
 	w.Lag = 0
 	w.Load(st)
-	label := fmt.Sprintf("r=%d slots %v -> %v %s templateEdit=%v", r, s1, s2, policy, editTemplate)
+	label := fmt.Sprintf("r=%d slots %v -> r=%d slots %v %s templateEdit=%v", r, s1, r2, s2, policy, editTemplate)
 	var trace []string
 	settle := func(phase string) bool {
 		for i := 0; i < 60; i++ {
@@ -332,12 +332,17 @@ func c01Journey(rep *explore.Report, w *world.World, r int32, s1, s2 []int32, po
 		cur.Spec.Template.Spec.Containers[0].Image = gen.Image(2)
 		cur.Generation++
 	}
+	if r2 != r {
+		x := r2
+		cur.Spec.Replicas = &x
+		cur.Generation++
+	}
 	cur.ResourceVersion += "1"
 	before := w.S.API.Sets["web"]
 	w.S.PutSet(cur, 0)
 	// the edit reaches the controller as an update event of its set informer; an annotation-only edit does not move
 	// metadata.generation, and the controller must wake up for it all the same
-	if len(w.SetHandlers) == 1 && fmt.Sprint(s1) != fmt.Sprint(s2) {
+	if len(w.SetHandlers) == 1 && (fmt.Sprint(s1) != fmt.Sprint(s2) || r2 != r) {
 		q := &recQueue{}
 		w.Ctrl.VerifSetQueue(q)
 		w.FillCaches()
@@ -357,7 +362,7 @@ func c01Journey(rep *explore.Report, w *world.World, r int32, s1, s2 []int32, po
 	for _, x := range s2 {
 		ref[x] = true
 	}
-	for _, d := range oracle.Desired(r, ref) {
+	for _, d := range oracle.Desired(r2, ref) {
 		want = append(want, int(d))
 	}
 	var got []int
@@ -382,7 +387,7 @@ func init() {
 	register("c01", "desired ordinals: helpers and controller vs reference (bounded-exhaustive inputs)", func([]string) int {
 		thorough := explore.Tier() == "thorough"
 		rep := explore.NewReport("C01", "model_checking")
-		rep.Rule = "bounded-exhaustive inputs: replicas 0..6 (thorough 0..8) x {annotation absent, nil annotation map, 24 malformed/edge values, every subset of {-2..8} with <=4 (thorough <=5) members and int32-extreme sets, each in canonical/permuted/duplicated/whitespace encodings}; every helper compared with the reference model (first r non-negative integers not listed); the real controller run on an empty cluster under Parallel (one reconcile) and OrderedReady (reconcile/kubelet loop to quiescence) for every input with distinct slot sets; plus edit journeys on the real controller: replicas 0..3, slots s1 then s2 over all pairs of subsets of {0..3} with <=2 members (s2 may remove the annotation), with and without a template edit, both policies, each phase run to quiescence, the edit delivered as an update event through the real set handler (which must enqueue the set although an annotation-only edit leaves metadata.generation alone): the pods must end at exactly desired(r, s2); and sets that own a healthy pod named <set>-(2^32+k), which is no member, must still create ordinal k. Non-trivial = the annotation denotes at least one slot."
+		rep.Rule = "bounded-exhaustive inputs: replicas 0..6 (thorough 0..8) x {annotation absent, nil annotation map, 24 malformed/edge values, every subset of {-2..8} with <=4 (thorough <=5) members and int32-extreme sets, each in canonical/permuted/duplicated/whitespace encodings}; every helper compared with the reference model (first r non-negative integers not listed); the real controller run on an empty cluster under Parallel (one reconcile) and OrderedReady (reconcile/kubelet loop to quiescence) for every input with distinct slot sets; plus edit journeys on the real controller: replicas 0..3, slots s1 then s2 over all pairs of subsets of {0..3} with <=2 members (s2 may remove the annotation), with and without a template edit, both policies, each phase run to quiescence, the edit delivered as an update event through the real set handler (which must enqueue the set although an annotation-only edit leaves metadata.generation alone): the pods must end at exactly desired(r, s2); journeys in which the annotation stays (subsets of {0..5} with <=2 members) and replicas moves r -> r2 over 0..4, ending at desired(r2, s); and sets that own a healthy pod named <set>-(2^32+k), which is no member, must still create ordinal k. Non-trivial = the annotation denotes at least one slot."
 		rep.Assumptions = []string{"for values that are not a JSON list of int32 the reference reads 'no slots' (the annotation codec's own contract)", "replicas near MaxInt32 are out of bound (the reconciler allocates a slice of that length)"}
 		var inputs []c01Input
 		c01Inputs(thorough, func(in c01Input) { inputs = append(inputs, in) })
@@ -427,7 +432,7 @@ func init() {
 		wg.Wait()
 		// edit journeys: slots s1, then s2 (also removed), with and without a template edit in between
 		type jb struct {
-			r      int32
+			r, r2  int32
 			s1, s2 []int32
 			pol    string
 			tmpl   bool
@@ -440,7 +445,7 @@ func init() {
 				defer jwg.Done()
 				w := world.New()
 				for j := range jch {
-					c01Journey(rep, w, j.r, j.s1, j.s2, j.pol, j.tmpl)
+					c01Journey(rep, w, j.r, j.s1, j.s2, j.pol, j.tmpl, j.r2)
 				}
 			}()
 		}
@@ -453,8 +458,24 @@ func init() {
 					}
 					for _, pol := range []string{"Parallel", "OrderedReady"} {
 						for _, t := range []bool{false, true} {
-							jch <- jb{r, s1, s2, pol, t}
+							jch <- jb{r, r, s1, s2, pol, t}
 						}
+					}
+				}
+			}
+		}
+		// the annotation stays and the replica count moves (slots that were outside the range come into it and back:
+		// whatever the controller worked out for the old count must not outlive it); every worker's controller goes
+		// through many such journeys in a row, as one long-running process would
+		wide := gen.Subsets([]int32{0, 1, 2, 3, 4, 5}, 2)
+		for r := int32(0); r <= 4; r++ {
+			for r2 := int32(0); r2 <= 4; r2++ {
+				if r == r2 {
+					continue
+				}
+				for _, sl := range wide {
+					for _, pol := range []string{"Parallel", "OrderedReady"} {
+						jch <- jb{r, r2, sl, sl, pol, false}
 					}
 				}
 			}
